@@ -151,6 +151,31 @@ def run(chk: core.Check):
             chk.fail(f"an operation failed or errored but the phase is reported {phase}", sc)
     chk.stages["complete_runs"] = {"runs": len(records), "lost": lost}
 
+    # ---- (a+) runs with a failure limit, workers ahead of the consumer: a failing response that was served must show in the phase status
+    n_l = (10 if quick else 100) * (3 if chk.broken else 1)
+    lim_sc = []
+    while len(lim_sc) < n_l:
+        sc = U.gen_scenario(rng, allow_stop=False, allow_limit=True)
+        if not any(k in ("fail", "err", "build") for k in sc["kinds"]):
+            continue
+        sc["maxf"] = rng.choice([1, 1, 2])
+        ahead = [f"W{i % sc['workers']}" for i in range(rng.randint(10, 40))]
+        rng.shuffle(ahead)
+        sc["schedule"] = ahead + sc["schedule"]          # the workers run ahead, the consumer finds several events queued
+        lim_sc.append(sc)
+    lim_records = U.run_scenarios(chk, lim_sc, "forced schedules (failure limit)")
+    lost_l = 0
+    for rec in lim_records:
+        if "events" not in rec:
+            continue
+        sc = rec["scenario"]
+        served_failure = any(U.op_index(r["target"]) is not None and sc["kinds"][U.op_index(r["target"])] == "fail" for r in (rec.get("requests") or []))
+        phase = [e for e in rec["events"] if event_kind(e) == "PhaseFinished" and e.phase.name.name == "FUZZING"][0].status.name
+        if served_failure and phase not in ("FAILURE", "ERROR"):
+            lost_l += 1
+            chk.fail(f"a failing response was served (max_failures={sc['maxf']}) but the phase is reported {phase}", sc)
+    chk.stages["failure_limit_runs"] = {"runs": len(lim_records), "lost": lost_l}
+
     # ---- (a') the consumer's exit condition, sub-step by sub-step: a failure must not be lost with the last events of a worker
     def judge(sc, r):
         bad = any(k in ("fail", "err") for k in sc["kinds"])
